@@ -102,7 +102,15 @@ class ExprMixin:
         fr = Frame({}, mod)
         try:
             self.specmode += 1
-            return self.eval(fr, val)
+            try:
+                return self.eval(fr, val)
+            except Unsupported:
+                # a module-level value computed by something outside the model (re.compile(...), a registry built at import
+                # time): an opaque constant - whatever the function does with it is explored for every possible answer
+                self.d.used_builtins.add(f'opaque module constant: {mod.name}.{name}')
+                t = z3.Const(f'modconst!{mod.name}.{name}', Val)
+                self.assume(Val.is_VObj(t))       # an object (compiled pattern, registry ...), in particular not None
+                return SDyn(t, shape=S.Opaque('modconst'))
         finally:
             self.specmode -= 1
 
